@@ -127,6 +127,18 @@ def generate(seed, tier="quick"):
             seq = [good, bad, good]
             xr.shuffle(seq)
             f["tests"].append({"name": f"test_dcu{n}", "events": [{"t": "cmp", "eid": f"dcu{n}_{i}", "site": sid, "vals": [v], "style": "rec", "reflect": xr.random() < 0.3} for i, v in enumerate(seq)]})
+        # a snapshot of this (flag-less) session handed to the public testing helper, whose inner run approves categories of its own:
+        # the helper's comparison with the outer snapshot must answer like the plain value does
+        if xr.random() < 0.2:
+            n += 1
+            sid = f"exq{n}"
+            exflags = xr.choice(["create", "create,fix", "create,update", "create,fix,trim,update"])
+            after = "from inline_snapshot import snapshot\n\ndef test_a():\n    assert 5 == snapshot(5)\n"
+            right = ["dict", [[["str", "test_something.py"], ["str", after]]]]
+            arg = xr.choice([V.expr(right), '{"test_something.py": "something else"}', "{}", V.expr(right), '{"other.py": ""}'])
+            f["sites"][sid] = {"op": "eq", "place": "func", "arg": arg, "prev": None, "wrapped": True, "example": True}
+            f["tests"].append({"name": f"test_exq{n}", "events": [
+                {"t": "stmt", "text": f"rec('exq{n}', lambda: check_example({exflags!r}, get_{sid}()))", "expect": V.expr(right)}]})
         # a second operation on one snapshot
         if xr.random() < 0.3:
             n += 1
@@ -286,6 +298,16 @@ def execute(case, ctx):
                         ctx.count("probe_identity_after_xfail_test")
                     if drec.get(eid) != [True]:
                         viol("identity-when-disabled", f"snapshot(v)-is-not-v:{route}", f"{eid}: {drec.get(eid)}")
+                if e.get("t") == "stmt" and e["text"].startswith("rec('exq"):
+                    eid = e["text"].split("'")[1]
+                    ctx.count("probe_outer_snapshot_compared_by_run_inline")
+                    want = [True] if src[eid] == P.eval_arg(e["expect"]) else ["E:AssertionError"]
+                    if arec.get(eid) != want:
+                        viol("active-equals-plain", "eq:active-answer-differs-from-plain-value:compared-inside-Example.run_inline",
+                             f"{eid}: the files changed by the inner run compared with snapshot({sidx[eid][1]['arg']}) of the flag-less outer session ({adrv}): plain python answers {want}, "
+                             f"the active session answered {arec.get(eid)}\n{files[f['name']][:1200]}")
+                    if drec is not None and route in ("flag", "ci") and drec.get(eid) != want:
+                        viol("disabled-equals-plain", f"eq:disabled-answer-differs-from-plain-value:{route}:compared-inside-Example.run_inline", f"{eid}: plain {want}, disabled session answered {drec.get(eid)}")
                 if e.get("t") == "stmt" and e["text"].startswith("rec('w"):
                     eid = e["text"].split("'")[1]
                     ctx.count("probe_second_operation")
